@@ -11,7 +11,13 @@
    request:  region <rows> <cols> <beg> <cnt> <reinit 0|1> <cached 0|1>
              (TermOutDefs: term_window(beg, cnt) on a fresh terminal, then -- reinit = 1 -- term_done(); term_init(); with term.c's
              term_window (cached = 0) or the variant that trusts the copy (cached = 1))
-   answer:   <top> <bot> <err> <hex of the bytes written>     (the emulator's region afterwards) *)
+   answer:   <top> <bot> <err> <hex of the bytes written>     (the emulator's region afterwards)
+   request:  geom <rows> <w_cnt> <id> -> <beg> <text rows>        (DrawSplitDefs.geom: what vi_switch(id) hands to term_window)
+   request:  prompt <td> <hex keys | -> -> <td afterwards> <answered 0|1>     (DrawDirDefs.led_prompt on the keys typed at the prompt)
+   request:  row <td> <xleft> <xcols> <hi 0|1> <match -1|0|1> <pos,wid,glyph;...| -> <cursor pos>
+             (DrawDirDefs: dir_context under td of a line whose first byte has its high bit set (hi) and whose first matching
+             direction-context pattern says <match> (0 = none); render_row = the cells led_render fills; vi_pos of <cursor pos>)
+   answer:   <dir> <glyph or -1 per cell, comma separated>|<terminal column of the cursor> *)
 let pr = Printf.printf
 let ints s = List.map int_of_string (List.filter (fun w -> w <> "") (String.split_on_char ',' s))
 let do_put mode h top xrow cnt pref post reg olds news =
@@ -73,6 +79,27 @@ let () =
          let o2 = if re = "1" then snd (reinit_out (cached = "1") (n rows) w) else [] in
          let t = run (run (term_new (n rows) (n cols)) o1) o2 in
          pr "%d %d %d %s\n" (int_of_nat t.t_top) (int_of_nat t.t_bot) (int_of_nat t.t_err) (hex_of_bytes (o1 @ o2))
+       | ["geom"; rows; wcnt; id] ->
+         let n s = nat_of_int (int_of_string s) in
+         let (b, h) = geom (n rows) (n wcnt) (n id) in
+         pr "%d %d\n" (int_of_nat b) (int_of_nat h)
+       | ["prompt"; td; hex] ->
+         let keys = if hex = "-" then [] else bytes_of_hex hex in
+         let (s, r) = led_prompt [] [] { e_td = z_of_int (int_of_string td); e_keys = keys } in
+         pr "%d %d\n" (int_of_z s.e_td) (match r with Some _ -> 1 | None -> 0)
+       | ["row"; td; left; cols; hi; m; chars; cur] ->
+         let z s = z_of_int (int_of_string s) in
+         let cs = if chars = "-" then [] else
+             List.map (fun t -> match ints t with
+                 | [p; w; g] -> ((z_of_int p, z_of_int w), g)
+                 | _ -> failwith "row") (String.split_on_char ';' chars) in
+         let mm = match int_of_string m with 0 -> None | d -> Some (z_of_int d) in
+         let l = { l_hi = (hi = "1"); l_match = mm; l_chars = cs } in
+         let cells = render_row (z td) (z left) (z cols) l in
+         let d = line_dir (z td) l in
+         pr "%d %s|%d\n" (int_of_z d)
+           (String.concat "," (List.map (fun c -> match c with Some g -> string_of_int g | None -> "-1") cells))
+           (int_of_z (vi_pos d (z cur) (z left) (z cols)))
        | ["wid"; c] -> pr "%d\n" (int_of_nat (cp_wid (n_of_int (int_of_string c))))
        | _ -> pr "error bad request\n");
       flush stdout)
